@@ -238,8 +238,12 @@ def typeTable : List (Str × Nat) :=
     ([83, 82, 86], 33),
     ([65, 78, 65, 77, 69], 65305),
     ([72, 73, 78, 70, 79], 13),
-    ([67, 65, 65], 257) ]
-  -- A, NS, CNAME, SOA, PTR, MX, TXT, AAAA, SRV, ANAME, HINFO, CAA
+    ([67, 65, 65], 257),
+    ([84, 76, 83, 65], 52),
+    ([83, 77, 73, 77, 69, 65], 53),
+    ([68, 83], 43),
+    ([83, 83, 72, 70, 80], 44) ]
+  -- A, NS, CNAME, SOA, PTR, MX, TXT, AAAA, SRV, ANAME, HINFO, CAA, TLSA, SMIMEA, DS, SSHFP
 
 def typeCode (s : Str) : Option Nat := typeTable.lookup s
 
